@@ -598,7 +598,7 @@ fn gen_glyph_ids(rng: &mut Rng, src: &Source) -> Vec<u32> {
         }
     }
     // unmapped glyphs; sometimes many, so that new ids exceed 255
-    let extra = if rng.chance(1, 8) { 250 + rng.below(200) } else { rng.below(6) };
+    let extra = if rng.chance(1, 5) { 250 + rng.below(200) } else { rng.below(6) };
     for _ in 0..extra {
         let g = rng.below(src.num_glyphs as u64) as u32;
         if seen.insert(g) {
